@@ -92,3 +92,24 @@ fn c05_icmp4_echo_4() {
 fn c05_icmp4_echo_15() {
     icmp4_case(15)
 }
+
+//# harness: c20_icmpv4_events
+//# props: C20
+//# tier: quick
+//# encodes: layer_4::icmpv4::repl
+//# encodes: logger::MetaLogger::{icmpv4_recv,icmpv4_send,icmpv4_drop}
+//# bounds: 8-byte ICMP message, type/code/rest symbolic
+//# cover: answered
+//# cover: dropped
+#[kani::proof]
+#[kani::unwind(20)]
+fn c20_icmpv4_events() {
+    let buf: [u8; 8] = kani::any();
+    let req = IcmpPacket::new(&buf[..]).unwrap();
+    let masscanned = ms_counting([0, 0], any_mac());
+    let ci = ClientInfo::new();
+    let r = repl(&req, &masscanned, &ci);
+    assert!(balanced(L_ICMPV4, r.is_some()), "C20: ICMPv4 layer did not log exactly one recv and one terminal event (send iff answered)");
+    kani::cover!(r.is_some(), "answered");
+    kani::cover!(r.is_none(), "dropped");
+}
